@@ -120,19 +120,30 @@ def oracle(case: dict, obs: dict):
 
 
 def shrink(case, pred):
-    """Greedy: drop actions, then whole handlers' bodies, while pred(case) holds."""
+    """Greedy: drop commands (never the initialize), then actions, while pred(case) holds."""
     cur = json.loads(json.dumps(case))
     changed = True
-    while changed:
+    budget = 120
+    while changed and budget > 0:
         changed = False
+        for j in range(len(cur["cmds"]) - 1, 0, -1):
+            cand = json.loads(json.dumps(cur))
+            del cand["cmds"][j]
+            budget -= 1
+            if pred(cand):
+                cur = cand; changed = True
+                break
+        if changed:
+            continue
         for h in range(len(cur["prog"])):
             for i in range(len(cur["prog"][h])):
                 cand = json.loads(json.dumps(cur))
                 del cand["prog"][h][i]
+                budget -= 1
                 if pred(cand):
                     cur = cand; changed = True
                     break
-            if changed:
+            if changed or budget <= 0:
                 break
     return cur
 
